@@ -219,6 +219,9 @@ def check(an: Analysis) -> None:
         if w is not None:
             ob.fail(mexit, fcalls[0].ast, "a path leaves MetricsContext.__exit__ without finishing the metrics scope", CFG.show_path(w))
 
+    for name in ("context.access.ScopeContext.__exit__", "context.access.ScopeContext.__aexit__"):
+        c02._must_attempt(an, ob, prog.fn(name), {"metrics exit": c02.M_EXIT})
+
     # ------------------------------------------------------------------ C09.4 upward notification
     ob = an.ob("C09.4", "K1", "after resolving, _complete_if_able notifies the (not yet completed) parent on every normal path", [f"{SM}._complete_if_able"])
     dcia = Deps(prog, cia)
